@@ -209,19 +209,20 @@ impl TraversalMut for DfsEdge {
     fn new<N, const K: usize>(tree: &Tree<N, K>, root: TreeIndex) -> DfsEdge {
         let mut stack = Vec::with_capacity(K);
         let mut last_push = 0;
-        for ed in tree.children(tree.get_root_idx()).rev() {
+        for ed in tree.children(root).rev() {
             stack.push((1, root, ed.label, ed.target_idx));
             last_push += 1;
         }
         DfsEdge {
             stack,
             last_push,
+            // a tree with n nodes has n - 1 edges
             size_lb: if root == tree.get_root_idx() {
-                tree.len()
+                tree.len().saturating_sub(1)
             } else {
                 0
             },
-            size_ub: tree.len(),
+            size_ub: tree.len().saturating_sub(1),
         }
     }
 
